@@ -177,6 +177,12 @@ class ExprMixin:
             self.emit("safe.none", f"{attr}@L{getattr(node, 'lineno', 0)}", st, z3.Not(base.isnone))
             self.assume_here(st, z3.Not(base.isnone))
             base = base.val
+        if base.__class__.__name__ == "SuperRef":
+            for c in loader.mro(base.cls)[1:]:
+                mem = loader.class_members(c).get(attr)
+                if mem is not None and mem["kind"] == "method":
+                    return FuncRef(f"{loader.all_classes()[c][0]}.{c}.{attr}", bound_self=base.obj)
+            raise Unsupported(f"super().{attr}")
         if isinstance(base, ModuleRef):
             return self.module_attr(base, attr)
         if isinstance(base, SV) and isinstance(base.ty, TObj):
